@@ -83,6 +83,9 @@ MAX_PATHS = 300
 def replay(obligation, witness):
     """Native oracle: concrete calls on the real tag class, comparing the reported value before/after with the listener's record."""
     import contracts.c36_native as n
+    if "notify_tag_updates" in obligation or "notify_change" in obligation:
+        r = n.changed_tags_are_queued()
+        return {"confirmed": bool(r.get("violated")), **r}
     if "collect_tag_updates" in obligation or "notify_all_tags" in obligation:
         r = n.report_building()
         return {"confirmed": bool(r.get("violated")), **r}
@@ -309,5 +312,83 @@ def _nat_report():
     return {"ok": not r["violated"], "observation": r}
 
 
-NATIVE = [("native:report-building-on-the-real-engine", _nat_report)]
+def _nat_queued():
+    import contracts.c36_native as n
+    r = n.changed_tags_are_queued()
+    return {"ok": not r["violated"], "observation": r}
+
+
+NATIVE = [("native:report-building-on-the-real-engine", _nat_report), ("native:changed-tags-are-queued-on-the-real-engine", _nat_queued)]
 BOUNDED = BOUNDED + ["one native scenario through the real Engine and EngineMessageBuilder (duplicate queue entry, value changed after queuing, snapshot): bounded, not counted"]
+
+
+# ---- from `notified` to `queued`: ChangeListener.notify_change and Engine.notify_tag_updates --------------------------------------------
+LST = "openpectus.lang.exec.tags:ChangeListener."
+listener = Contract(target=LST + "notify_change", types={"self": "ChangeListener", "elm": "str", "ChangeListener._changes": "set[str]"}, raises={},
+                    ensures=[("the-name-is-recorded", "elm in self._changes"), ("earlier-names-are-kept", "all(x in self._changes for x in old(self._changes))")])
+
+
+def changes_of(ctx, base):
+    """ChangeListener.changes (property): list(self._changes) — the recorded names, each once"""
+    import ast as _ast
+    from pyvc.executor import Frame
+    nf = Frame(ctx.fr.func, ctx.fr.module, None, parent_env=ctx.fr)
+    nf.locals["l_"] = base
+    return ctx.ex.ev(_ast.parse("list(l_._changes)", mode="eval").body, nf)
+
+
+def coll_get(ctx, args, kwargs):
+    """TagCollection.__getitem__(name): the tag registered under that name (GET_TAG(collection, name)); KeyError is not modelled: a name
+    recorded by the collection's own listener is a name of the collection"""
+    coll = ctx.ex.ev(ctx.node.func.value, ctx.fr) if hasattr(ctx.node, "func") else None
+    return ctx.fresh("tag", "Tag")
+
+
+GTf = z3.Function("GET_TAG", Val, Val, Val)
+
+
+def subscript_tag(ctx, node):
+    """collection[name] for a TagCollection: GET_TAG(collection, name), a Tag"""
+    coll = ctx.ex.ev(node.value, ctx.fr)
+    key = ctx.ex.ev(node.slice, ctx.fr)
+    out = SV(GTf(coll.term, key.term), Ty("Tag"))
+    ctx.ex.assume_type(out.term, out.ty, ctx.fr)
+    return out
+
+
+def GT(ctx, coll, key):
+    return SV(GTf(coll.term, key.term), Ty("Tag"))
+
+
+SPEC_FUNCS["GT"] = GT
+
+
+def emit(ctx, args, kwargs):
+    """emitter.emit_on_connection_status_change: event dispatch, no effect on the queue"""
+    return ctx.none()
+
+
+emit.modifies = []
+NT = {"self": "Engine", "Engine._system_listener": "ChangeListener", "Engine._uod_listener": "ChangeListener", "ChangeListener._changes": "set[str]",
+      "Engine.ghost_pending": "list[Tag]", "tag_name": "str"}
+SYS0 = "old(self._system_listener._changes)"
+UOD0 = "old(self._uod_listener._changes)"
+notify_updates = Contract(
+    target="openpectus.engine.engine:Engine.notify_tag_updates", types=NT, raises=None,
+    calls={"self.tag_updates.put": q_put, "self._emitter.emit_on_connection_status_change": emit},
+    options={"subscript_handlers": {"self._system_tags[tag_name]": subscript_tag, "self.uod.tags[tag_name]": subscript_tag,
+                                    "self._system_tags[SystemTagName.CONNECTION_STATUS]": subscript_tag},
+             "property_handlers": {"ChangeListener.changes": changes_of}, "lenient": True, "protected_prefixes": ()},
+    requires=[f"{PEND} is not None", "self._system_listener is not self._uod_listener and self._system_listener._changes is not self._uod_listener._changes"],
+    ensures=[("every-changed-system-tag-is-queued", f"all(any({PEND}[i] is GT(self._system_tags, n) for i in range(len({PEND}))) for n in {SYS0})"),
+             ("every-changed-uod-tag-is-queued", f"all(any({PEND}[i] is GT(self.uod.tags, n) for i in range(len({PEND}))) for n in {UOD0})"),
+             ("both-change-records-are-cleared", "len(self._system_listener._changes) == 0 and len(self._uod_listener._changes) == 0")],
+    loops={"for tag_name in self._system_listener.changes": LoopSpec(
+               invariant=[f"all(any({PEND}[i] is GT(self._system_tags, key_at(self._system_listener._changes, j)) for i in range(len({PEND}))) for j in range(idx))"],
+               frame={"$items": [PEND], "$len": [PEND]}),
+           "for tag_name in self._uod_listener.changes": LoopSpec(
+               invariant=[f"all(any({PEND}[i] is GT(self._system_tags, n) for i in range(len({PEND}))) for n in {SYS0})",
+                          f"all(any({PEND}[i] is GT(self.uod.tags, key_at(self._uod_listener._changes, j)) for i in range(len({PEND}))) for j in range(idx))"],
+               frame={"$items": [PEND], "$len": [PEND]})})
+CONTRACTS = CONTRACTS + [listener, notify_updates]
+TARGETS = [c.key for c in CONTRACTS]
